@@ -96,6 +96,25 @@ func $NC(a int) (res int) {
 	}
 	return res*100 + v
 }`, entries: []*Entry{callEntry("$NC", 1, nil)}},
+	{name: "range-assign-redeclared-in-body", decls: baseGen + `
+func $NC(a int) (res int) {
+	var v int
+	for v = range $RANGE{$NG(a)} {
+		v := v * 2
+		res += v
+	}
+	tr.Ev(1, v)
+	return res*1000 + v
+}`, entries: []*Entry{callEntry("$NC", 1, nil)}},
+	{name: "range-define-redeclared-in-body", decls: baseGen + `
+func $NC(a int) (res int) {
+	v := 77
+	for v := range $RANGE{$NG(a)} {
+		var v = v * 2
+		res += v
+	}
+	return res*1000 + v
+}`, entries: []*Entry{callEntry("$NC", 1, nil)}},
 	{name: "range-assign-field", decls: baseGen + `
 type $NS struct{ v, n int }
 
@@ -622,4 +641,128 @@ var badSignatures = []injection{
 	{name: "non-iter-result", decls: "$SONLY{func $NBad(a int) []int {\n\t$YIELD{a}\n\treturn nil\n}}"},
 	{name: "no-result", decls: "$SONLY{func $NBad(a int) {\n\t$YIELD{a}\n}}"},
 	{name: "chan-result", decls: "$SONLY{func $NBad(a int) <-chan int {\n\t$YIELD{a}\n\treturn nil\n}}"},
+}
+
+// ---- C07 / C02: optimiser bait inside generators -----------------------------------------------------
+
+var optimiserBait = []shape{
+	{name: "pull-loop-iterator-reassigned", tags: []string{"eta-shape"}, decls: `
+$GEN{$NCount(from int, n int)}{int}{
+	for i := 0; i < n; i++ {
+		tr.Ev(900, from, i)
+		$YIELD{from + i}
+	}
+	$RET
+}
+
+$GEN{$NG(a int)}{int}{
+	it := $NCount(a, 4)
+	n := 0
+	for it.MoveNext() {
+		$YIELD{it.Current()}
+		n++
+		if n == 2 {
+			it = $NCount(100+a, 2)
+		}
+	}
+	$RET
+}`, entries: []*Entry{drive("$NG", "int", 1, nil)}},
+	{name: "loop-cond-mutable-func-var", tags: []string{"eta-shape"}, decls: `
+$GEN{$NG(a int)}{int}{
+	n := 0
+	more := func() bool { tr.Ev(1, n); return n < 4 }
+	for more() {
+		n++
+		$YIELD{n}
+		if n == 2 {
+			more = func() bool { tr.Ev(2, n); return n < 3 }
+		}
+	}
+	$RET
+}`, entries: []*Entry{drive("$NG", "int", 1, [][]int{{0}})}},
+	{name: "loop-cond-method-value-receiver-reassigned", tags: []string{"eta-shape"}, decls: `
+type $NLim struct{ max int }
+
+func (l $NLim) more(n int) bool { return n < l.max }
+
+$GEN{$NG(a int)}{int}{
+	l := $NLim{max: 4}
+	n := 0
+	ok := func() bool { return l.more(n) }
+	for ok() {
+		n++
+		$YIELD{n}
+		l = $NLim{max: 2 + a%2}
+	}
+	$RET
+}`, entries: []*Entry{drive("$NG", "int", 1, nil)}},
+	{name: "loop-post-mutable-func-var", tags: []string{"eta-shape"}, decls: `
+$GEN{$NG(a int)}{int}{
+	n := 0
+	step := func() { n++ }
+	for ; n < 6; step() {
+		$YIELD{n}
+		if n == 2 {
+			step = func() { n += 2 }
+		}
+	}
+	$RET
+}`, entries: []*Entry{drive("$NG", "int", 1, [][]int{{0}})}},
+	{name: "yield-literal-variable-constant", decls: `
+const $NK = 7
+
+$GEN{$NG(a int)}{int}{
+	x := 1
+	$YIELD{1}
+	x = 5
+	$YIELD{x}
+	x = 9
+	$YIELD{-1}
+	$YIELD{$NK}
+	$YIELD{1 + 2}
+	for i := 0; i < 2; i++ {
+		$YIELD{2}
+		x += i
+	}
+	$YIELD{x}
+	$RET
+}`, entries: []*Entry{drive("$NG", "int", 1, [][]int{{0}})}},
+	{name: "yield-string-literal-then-variable", decls: `
+$GEN{$NG(a int)}{string}{
+	s := "a"
+	for i := 0; i < 3; i++ {
+		$YIELD{"lit"}
+		s += "b"
+		$YIELD{s}
+	}
+	$RET
+}`, entries: []*Entry{drive("$NG", "string", 1, [][]int{{0}})}},
+	{name: "thunk-is-a-single-call", tags: []string{"eta-shape"}, decls: `
+$GEN{$NSub(a int)}{int}{
+	tr.Ev(900, a)
+	$YIELD{a}
+	$RET
+}
+
+$GEN{$NG(a int)}{int}{
+	mk := $NSub
+	if a > 0 {
+		$YFROM{mk(a)}
+	}
+	mk = func(x int) $ITER{int} { return $NSub(x * 10) }
+	if a > 1 {
+		$YFROM{mk(a)}
+	}
+	$YIELD{0}
+	$RET
+}`, entries: []*Entry{drive("$NG", "int", 1, nil)}},
+	{name: "user-closure-returning-seq-shaped-call", tags: []string{"eta-shape"}, decls: `
+$GEN{$NG(a int)}{int}{
+	get := func() int { tr.Ev(1, a); return a }
+	wrap := func() int { return get() }
+	$YIELD{wrap()}
+	get = func() int { tr.Ev(2, a); return a * 100 }
+	$YIELD{wrap()}
+	$RET
+}`, entries: []*Entry{drive("$NG", "int", 1, nil)}},
 }
